@@ -179,6 +179,10 @@ op('assert', lambda c, f: rs.ops.assert_(F(f)), lambda f: M.Map(lambda x: x))
 op('assert_1', lambda c, f: rs.ops.assert_1(F(f)), lambda f: M.Map(lambda x: x))
 op('progress', lambda c, n: rs.ops.progress('p', n, measure_throughput=False), lambda n: M.Map(lambda x: x))
 op('progress_t', lambda c, n: rs.ops.progress('p', n, measure_throughput=True), lambda n: M.Map(lambda x: x))
+import collections as _collections
+_Pt = _collections.namedtuple('Pt', ['a', 'b'])
+FUNCS['to_pt'] = lambda x: _Pt(None if x % 2 else x, x)
+FUNCS['pt_sum'] = lambda p: (p.a, p.b)
 op('tap', lambda c, name: tap(c.log(name), states=c.states), lambda name: M.Map(lambda x: x))
 
 # folds
